@@ -103,12 +103,33 @@ func recvGuard(live bool, o *obsT, f func()) {
 	o.Alive, o.Panic = protect(f)
 }
 
-const liveWait = 450 * time.Millisecond // > 2 periods of the 200 ms tickers
+// liveTick waits until the real pendBlockLoop has certainly completed one full scan
+// that started after the call: every pending block costs one mempool query per scan,
+// so two more scans' worth of queries (or an empty list) is the signal; then a short
+// pause for the statements that follow buildPendList in the loop body.
+func liveTick(n *ltenv.Node) {
+	p := n.V.PendLen()
+	if p == 0 {
+		time.Sleep(60 * time.Millisecond)
+		return
+	}
+	q0 := n.QueryCount()
+	deadline := time.Now().Add(20 * time.Second)
+	for n.QueryCount() < q0+2*int64(p) && n.V.PendLen() > 0 && time.Now().Before(deadline) {
+		time.Sleep(20 * time.Millisecond)
+	}
+	time.Sleep(80 * time.Millisecond)
+}
+
+const liveWait = 450 * time.Millisecond // > 2 periods of the 200 ms tickers (block-request loop)
 
 // runCase drives one component through the events; emit is called after each event.
 func runCase(c caseSpec, emit func(i int, o obsT)) error {
 	n := env.NewNode(c.TimeoutMs, c.Live, poolFn(c.Pool0))
 	defer n.Close()
+	if c.NoVal {
+		n.V.SetNoValidatorVerif()
+	}
 	for _, h := range c.NoChain {
 		n.NoChain[h] = true
 	}
@@ -127,7 +148,7 @@ func runCase(c caseSpec, emit func(i int, o obsT)) error {
 			})
 		case "tick":
 			if c.Live {
-				time.Sleep(liveWait)
+				liveTick(n)
 			} else {
 				nominal = e.T*int64(time.Second) + int64(time.Second)/2
 				setClock(nominal)
